@@ -583,6 +583,22 @@ def eval_get_spec_hashes(ctx):
             out[flag] = (res._name, tuple(res.__dict__["_attrs"].get("_args", ())) + tuple(res.__dict__["_attrs"].get("_kwargs", {}).values())) if isinstance(res, Obj) else res
         except (Raised, Unsupported) as exc:
             out[flag] = f"<{exc}>"
+    # a configuration in which EVERY other key is set, to a relative path: whatever optional setting relocates the store, the location must not depend on
+    # the directory gwf happens to be invoked from
+    asked = []
+
+    def h_get(recv, key, default=None):
+        asked.append(key)
+        return True if key == "use_spec_hashes" else "elsewhere/custom.json"
+    interp = PureInterp(ctx, hooks={"attr:get": h_get, "getattr:__getitem__": None} if False else {"attr:get": h_get})
+    try:
+        res = interp.call(fn, (), {"working_dir": tok("WD"), "config": Obj("config")})
+        args = tuple(res.__dict__["_attrs"].get("_args", ())) + tuple(res.__dict__["_attrs"].get("_kwargs", {}).values()) if isinstance(res, Obj) else ()
+        out["relocated"] = (args[0] if args else None, [k for k in asked if k != "use_spec_hashes"])
+    except Raised as exc:
+        out["relocated"] = (f"<raises {exc.kind}>", asked)
+    except Unsupported as exc:
+        out["relocated"] = (Ellipsis, asked)
     return out, fn
 
 
@@ -1063,8 +1079,9 @@ def eval_server_session(ctx, requests):
     interp = PureInterp(ctx, hooks=hooks)
     interp.max_depth = 8
     server = Obj("server_obj", scheduler=Obj("scheduler"), server=Obj("aio_server"), **{"__class__": ci})
+    from ..symeval import _simple_field_default
     for name, _ann, value in ci.fields:
-        if name not in ("scheduler", "server"):
+        if name not in ("scheduler", "server") and _simple_field_default(value) is Ellipsis:   # fields with a literal default / factory get it lazily
             server.__setattr__(name, Obj("field:" + name))
     out = {"calls": calls, "responses": responses}
     try:
@@ -2165,7 +2182,10 @@ def eval_task(ctx, deps=None, rc=0, timeout=False, spawn_fails=False, log_fails=
         "os.getpgid": h_lookup, "os.getsid": h_lookup,
         "os.kill": lambda pid, sig: h_lookup(pid) and ev.append(("kill-leader-only", pid)),
         "builtins.open": h_open,
+        "attr:open": lambda recv, mode="r", *a, **k: h_open(str(recv), k.get("mode", mode)),
         "attr:write": lambda recv, data, *a: ev.append(("write", getattr(recv, "path", None), data)),
+        "attr:write_bytes": lambda recv, data: (h_open(str(recv), "wb"), ev.append(("write", str(recv), data)))[1],
+        "attr:write_text": lambda recv, data, *a, **k: (h_open(str(recv), "w"), ev.append(("write", str(recv), data)))[1],
         "attr:joinpath": lambda recv, *parts: PathTok("/".join([str(recv)] + [str(p_) for p_ in parts])),
         "pathlib.Path": lambda *a: PathTok("/".join(str(x) for x in a)),
     }
